@@ -13,7 +13,7 @@ git apply $DST/patch.diff || { echo "patch does not apply"; }
 cargo test --offline --lib --features serde,base64 > $DST/unit_mutated.log 2>&1; UNIT=$?
 cargo test --offline --features serde,base64 --test seed_demo > $DST/demo_mutated.log 2>&1; MUT=$?
 rm -f tests/seed_demo.rs
-cd /verif
+cd ${VERIF_DIR:-/verif}
 RES=""
 for c in $CHECKS; do
   OUT=$(ELEMENTS_REPO=$WT ./check $c 2>&1 | grep -v "^KNOWN-FINDING"); echo "$OUT" > $DST/check_$c.log
